@@ -84,6 +84,7 @@ typedef struct {
   int mux;                       /* interleave a foreign logical stream: 0 none, 1 bos-after, 2 bos-before */
   int hdrsplit;                  /* 0: comment+setup share pages (default libogg), 1: each header packet flushed on own page */
   int noeos;                     /* clear the eos flag on the last page */
+  int noaud;                     /* the link consists of its three headers only: no audio packet, no audio page (for links of zero samples) */
 } layout_t;
 
 file_t *file_build(int id,int nlinks,link_t **links,layout_t *lay);
